@@ -7,12 +7,14 @@ use std::io::{BufRead, Write};
 mod render;
 mod util;
 mod cmd_core;
+mod cmd_conform;
 
 /// Command families.  To add one: create src/cmd_xxx.rs with
 /// `pub fn dispatch(cmd: &str, v: &J) -> Option<Result<J, String>>`, add `mod cmd_xxx;` above
 /// and append `cmd_xxx::dispatch` to this list.
 const FAMILIES: &[fn(&str, &J) -> Option<Result<J, String>>] = &[
     cmd_core::dispatch,
+    cmd_conform::dispatch,
 ];
 
 fn dispatch(cmd: &str, v: &J) -> Result<J, String> {
